@@ -174,8 +174,8 @@ class ParallelogramBoundary(BoundaryDomain):
         return torch.logical_or(x_close, y_close)
 
     def _bary_coords_close_to_0_or_1(self, bary_coord1, bary_coord2):
-        between_0_1 = torch.logical_and(0 <= bary_coord2, bary_coord2 <= 1)
-        close_to_0 = torch.isclose(bary_coord1, torch.tensor(0.0))
+        between_0_1 = torch.logical_and(-1e-5 <= bary_coord2, bary_coord2 <= 1 + 1e-5)
+        close_to_0 = torch.isclose(bary_coord1, torch.tensor(0.0), atol=1e-5)
         close_to_1 = torch.isclose(bary_coord1, torch.tensor(1.0))
         return torch.logical_and(torch.logical_or(close_to_1, close_to_0), between_0_1)
 
@@ -278,8 +278,8 @@ class ParallelogramBoundary(BoundaryDomain):
     def _add_local_normal_vector(
         self, normals, bary_x, bary_y, normal_dir_1, normal_dir_2, i
     ):
-        y_close_i = torch.where(torch.isclose(bary_y, torch.tensor(i)), 2 * i - 1, 0.0)
-        x_close_i = torch.where(torch.isclose(bary_x, torch.tensor(i)), 2 * i - 1, 0.0)
+        y_close_i = torch.where(torch.isclose(bary_y, torch.tensor(i), atol=1e-5), 2 * i - 1, 0.0)
+        x_close_i = torch.where(torch.isclose(bary_x, torch.tensor(i), atol=1e-5), 2 * i - 1, 0.0)
         normals += normal_dir_1 * y_close_i
         normals += normal_dir_2 * x_close_i
 
